@@ -47,6 +47,12 @@ type readRec struct {
 	data []byte
 }
 
+type createRec struct {
+	file    string
+	existed bool
+	before  []byte
+}
+
 type gevent struct {
 	idx  int
 	ev   string
@@ -75,6 +81,7 @@ type actor struct {
 	rdStreak int // block reads since the last lock call (an add that finds its id keeps searching)
 	lastEv   string
 	lastLock string
+	created  *createRec
 }
 
 type gate struct {
@@ -104,11 +111,22 @@ type gatedL2 struct {
 }
 
 // canonKey names a lock key by coordinates: S<block>.<slot> (findAndAdd: table + offset), B<seg>.<block>.<slot>
-// (lockFileBlockRegion: segment file + offset), I<id> (Update). "" = not one of these (never parked).
+// (lockFileBlockRegion: segment file + offset), I<id> (Update), P<seg> (setupNewFile: preallocation of a segment file).
+// "" = not one of these (never parked).
 func (g *gate) canonKey(k string) string {
 	w := g.w
 	for strings.HasPrefix(k, "lock:") {
 		k = k[5:]
+	}
+	if strings.HasPrefix(k, "infs_reg") {
+		// setupNewFile: preallocateFileLockKey + full path of the segment file
+		b := filepath.Base(k)
+		if strings.HasPrefix(b, table+"-") && strings.HasSuffix(b, ".reg") {
+			if seg, err := strconv.Atoi(b[len(table)+1 : len(b)-4]); err == nil {
+				return fmt.Sprintf("P%d", seg-1)
+			}
+		}
+		return ""
 	}
 	pre := "infs" + w.dir + string(os.PathSeparator)
 	if strings.HasPrefix(k, pre) {
@@ -172,6 +190,9 @@ func (c *gatedL2) Unlock(ctx context.Context, keys []*sop.LockKey) error {
 		return c.L2Cache.Unlock(ctx, keys)
 	}
 	a.park()
+	if strings.HasPrefix(ck, "P") && a.created != nil {
+		c.g.judgeCreate(a)
+	}
 	err := c.L2Cache.Unlock(ctx, keys)
 	a.pending = "ul " + ck
 	return err
@@ -181,8 +202,46 @@ func (c *gatedL2) Unlock(ctx context.Context, keys []*sop.LockKey) error {
 
 type ioHook struct{ real fs.DirectIO }
 
+// An open that may create the file (setupNewFile) is a call of its own: the writer decided "missing" earlier, without
+// a lock. What the file held before is kept, to be compared with what it holds when the preallocation lock is released.
 func (h *ioHook) Open(ctx context.Context, filename string, flag int, permission os.FileMode) (*os.File, error) {
-	return h.real.Open(ctx, filename, flag, permission)
+	a := actorOf(ctx)
+	if a == nil || flag&os.O_CREATE == 0 {
+		return h.real.Open(ctx, filename, flag, permission)
+	}
+	a.park()
+	before, err := os.ReadFile(filename)
+	a.created = &createRec{file: filename, existed: err == nil, before: before}
+	f, err := h.real.Open(ctx, filename, flag, permission)
+	a.pending = fmt.Sprintf("mk %d", segOfFile(filename))
+	return f, err
+}
+
+// judgeCreate: a creator that found the file already there (another writer made it since the unlocked existence check)
+// must leave its content alone.
+func (g *gate) judgeCreate(a *actor) {
+	c := a.created
+	a.created = nil
+	if !c.existed || len(c.before) == 0 {
+		return
+	}
+	now, err := os.ReadFile(c.file)
+	if err == nil && bytes.Equal(now, c.before) {
+		return
+	}
+	lost := 0
+	for off := 0; off+g.w.bsz <= len(c.before); off += g.w.bsz {
+		blk := c.before[off : off+g.w.bsz]
+		for s := 0; s < g.w.hp; s++ {
+			rec := blk[s*sop.HandleSizeInBytes : (s+1)*sop.HandleSizeInBytes]
+			if !bytes.Equal(rec, make([]byte, sop.HandleSizeInBytes)) && (off+(s+1)*sop.HandleSizeInBytes > len(now) || !bytes.Equal(rec, now[off+s*sop.HandleSizeInBytes:off+(s+1)*sop.HandleSizeInBytes])) {
+				lost++
+			}
+		}
+	}
+	g.mech = append(g.mech, mechEv{"C21/segment-file-content-destroyed-by-second-creator",
+		"a writer that decided (without a lock) that a segment file is missing creates it after another writer did, and destroys what was written to it in between",
+		fmt.Sprintf("writer %d (%s %s) segment file %d: %d records gone", a.idx, a.op.kind, a.op.i, segOfFile(c.file), lost)})
 }
 func (h *ioHook) Close(file *os.File) error { return h.real.Close(file) }
 
@@ -527,6 +586,8 @@ func (w *world) linearize(acts []*actor, found map[id]sop.Handle) (map[id]sop.Ha
 			var branches []bool // true = takes effect per the map; false = no effect
 			if a.res == "ok" {
 				branches = []bool{true}
+			} else if a.res == "err:busy" {
+				branches = []bool{false} // refused the preallocation lock: nothing done
 			} else if a.gaveUp || a.op.kind == "upd" {
 				branches = []bool{true, false}
 			} else {
@@ -573,7 +634,7 @@ func (g *gate) judge() {
 	sig := func(generic string) (string, string) {
 		// a block written back stale is never expected: it names the failure even when a stale search came first
 		for _, m := range g.mech {
-			if m.sig == "C21/stale-block-written-back" {
+			if m.sig == "C21/stale-block-written-back" || m.sig == "C21/segment-file-content-destroyed-by-second-creator" {
 				return m.sig, m.what + " [" + m.detail + "] "
 			}
 		}
@@ -672,6 +733,7 @@ type mwPlan struct {
 	sameID  bool // writer 1 (and 2) use writer 0's id
 	sameIdl bool // fresh ids share the ideal slot
 	full    bool // the hot block of the first segment file is (nearly) full
+	newSeg  int  // 1: no segment file yet; 2: the hot block of the only segment file is exactly full (new ids open file 2)
 }
 
 // prepare fills the hot block: a few present ids (some displaced), one removed id (a hole early in the block).
@@ -751,11 +813,38 @@ func (w *world) prepareFull(p *hx.Prng) *prepared {
 	return pr
 }
 
+// prepareNewSeg: nothing at all (the first segment file is missing), or the hot block of segment file 1 exactly full
+// (every new id of that block needs segment file 2, which is missing). The new ids get ideal slots of their own.
+func (w *world) prepareNewSeg(p *hx.Prng, overflow bool) *prepared {
+	pr := &prepared{blk: p.Intn(w.md)}
+	if overflow {
+		for k := 0; k < w.hp; k++ {
+			i := w.freshID(pr.blk, p.Intn(w.hp))
+			w.opAdd([]sop.Handle{w.handle(i)})
+			pr.present = append(pr.present, i)
+		}
+		w.s.Hit("mw_prefix_exactly_full_block")
+	} else {
+		w.s.Hit("mw_prefix_no_segment_file")
+	}
+	first := p.Intn(w.hp)
+	for k := 0; k < 6; k++ {
+		pr.free = append(pr.free, (first+7*k)%w.hp)
+	}
+	pr.busy = pr.free
+	return pr
+}
+
 func (w *world) pickOp(p *hx.Prng, pr *prepared, kind string, target int, freeIdx *int) mwOp {
 	var i id
 	switch target {
 	case tPresent:
-		i = pr.present[p.Intn(len(pr.present))]
+		if len(pr.present) == 0 {
+			i = w.freshID(pr.blk, pr.free[*freeIdx%len(pr.free)])
+			*freeIdx++
+		} else {
+			i = pr.present[p.Intn(len(pr.present))]
+		}
 	case tFreshFree:
 		i = w.freshID(pr.blk, pr.free[*freeIdx%len(pr.free)])
 		*freeIdx++
@@ -865,6 +954,10 @@ func (pl mwPlan) name() string {
 		n += ":same_ideal_slot"
 	case pl.full:
 		n += ":full_block"
+	case pl.newSeg == 1:
+		n += ":first_segment"
+	case pl.newSeg == 2:
+		n += ":overflow_segment"
 	default:
 		rel := "same_block"
 		for _, t := range pl.targets {
@@ -883,6 +976,8 @@ func runMW(ctx context.Context, s *hx.Session, p *hx.Prng, md int, pl mwPlan, sc
 		var pr *prepared
 		if pl.full {
 			pr = w.prepareFull(p)
+		} else if pl.newSeg > 0 {
+			pr = w.prepareNewSeg(p, pl.newSeg == 2)
 		} else {
 			pr = w.prepare(p, 2+p.Intn(2))
 		}
@@ -936,6 +1031,7 @@ type relation struct {
 	other   bool
 	busy    bool
 	full    bool
+	newSeg  int
 }
 
 var relations = []relation{
@@ -944,17 +1040,24 @@ var relations = []relation{
 	{name: "same_ideal_slot", sameIdl: true},
 	{name: "both_displaced", busy: true},
 	{name: "other_block", other: true},
+	{name: "first_segment", newSeg: 1},
+	{name: "overflow_segment", newSeg: 2},
 	{name: "full_block", full: true},
 }
+
+// relations with a 66-call prefix come last: dealt out sparingly
+const heavyRelations = 2
 
 func upserts(kind string) bool { return kind == "add" || kind == "set" || kind == "upd" }
 
 // planFor builds the plan of a pair (or triple) of kinds under a relation; ok=false when the relation does not apply.
 func planFor(p *hx.Prng, ks []string, r relation, md int) (mwPlan, bool) {
-	pl := mwPlan{kinds: ks, sameID: r.sameID, sameIdl: r.sameIdl, full: r.full}
+	pl := mwPlan{kinds: ks, sameID: r.sameID, sameIdl: r.sameIdl, full: r.full, newSeg: r.newSeg}
 	for k, kind := range ks {
 		t := defaultTarget(kind, p)
 		switch {
+		case r.newSeg == 1 || (r.newSeg == 2 && (kind == "add" || p.Chance(1, 2))):
+			t = tFreshFree // a new id (for Remove: an absent one) with an ideal slot of its own: the segment file is missing
 		case r.sameIdl:
 			if !upserts(kind) {
 				return pl, false
@@ -999,9 +1102,42 @@ func mwWitnesses(ctx context.Context, s *hx.Session, p *hx.Prng) error {
 	}); err != nil {
 		return err
 	}
-	return runCase(ctx, s, p.Fork(), profile{name: "mw_witness", md: 1}, func(w *world) {
+	if err := runCase(ctx, s, p.Fork(), profile{name: "mw_witness", md: 1}, func(w *world) {
 		prefix(w)
 		w.concurrent([]mwOp{{"set", id{0, 5}, w.handle(id{0, 5})}, {"set", id{0, 7}, w.handle(id{0, 7})}}, sched(0, 3, 1, 5, 0, 2, 1, 5))
+	}); err != nil {
+		return err
+	}
+	// finding C21-F4: two Removes of one id, the first parked between its search and its block lock: both answer ok
+	if err := runCase(ctx, s, p.Fork(), profile{name: "mw_witness", md: 1}, func(w *world) {
+		prefix(w)
+		w.concurrent([]mwOp{{"rm", id{0, 5}, sop.Handle{}}, {"rm", id{0, 5}, sop.Handle{}}}, sched(0, 1, 1, 5, 0, 4))
+	}); err != nil {
+		return err
+	}
+	// finding C21-F3: an UpdateNoLocks upsert and an Add of two new ids whose ideal slots are taken settle on the same hole
+	if err := runCase(ctx, s, p.Fork(), profile{name: "mw_witness", md: 1}, func(w *world) {
+		prefix(w)
+		w.concurrent([]mwOp{{"set", id{0, 71}, w.handle(id{0, 71})}, {"add", id{0, 73}, w.handle(id{0, 73})}}, sched(0, 1, 1, 9, 0, 4))
+	}); err != nil {
+		return err
+	}
+	// Sop.C21.createWitnessSchedule: no segment file yet; writer 0 decides "missing" and is parked in front of the
+	// preallocation lock; writer 1 creates the file, writes and returns; writer 0 creates the file again
+	for _, md := range []int{1, 250} {
+		if err := runCase(ctx, s, p.Fork(), profile{name: "mw_witness_create", md: md}, func(w *world) {
+			w.concurrent([]mwOp{{"add", id{0, 5}, w.handle(id{0, 5})}, {"add", id{0, 7}, w.handle(id{0, 7})}}, sched(0, 1, 1, 9, 0, 8))
+		}); err != nil {
+			return err
+		}
+	}
+	// Sop.C21.overflowWitness: block 0 of segment file 1 is full (ids 0:0 … 0:65); both new ids need segment file 2
+	return runCase(ctx, s, p.Fork(), profile{name: "mw_witness_create", md: 1}, func(w *world) {
+		for k := 0; k < w.hp; k++ {
+			w.opAdd([]sop.Handle{w.handle(id{0, uint64(k)})})
+		}
+		a, b := id{0, uint64(w.hp*5 + 3)}, id{0, uint64(w.hp*7 + 9)}
+		w.concurrent([]mwOp{{"add", a, w.handle(a)}, {"add", b, w.handle(b)}}, sched(0, 2, 1, 10, 0, 8))
 	})
 }
 
@@ -1027,12 +1163,13 @@ func driveMW(ctx context.Context, s *hx.Session, p *hx.Prng, o hx.RunOpts) error
 	for _, ka := range kinds4 {
 		for _, kb := range kinds4 {
 			for _, r := range relations {
-				if r.full && !(ka == "add" && kb == "add") && !(o.Thorough() && (ka == "add" || kb == "add")) {
-					continue // the full-block sweep (a 66-call prefix per case): two Adds; thorough tier: every pair with an Add
+				heavy := r.full || r.newSeg == 2
+				if heavy && !(ka == "add" && kb == "add") && !(o.Thorough() && (ka == "add" || kb == "add")) {
+					continue // the sweeps with a 66-call prefix per case: two Adds; thorough tier: every pair with an Add
 				}
 				seed := p.U64()
 				md := mods[int(seed%3)]
-				if r.full && md == 250 {
+				if heavy && md == 250 {
 					md = 1
 				}
 				if r.other && md == 1 {
@@ -1040,7 +1177,7 @@ func driveMW(ctx context.Context, s *hx.Session, p *hx.Prng, o hx.RunOpts) error
 				}
 				maxK := 16
 				for k := 0; k <= maxK; k++ {
-					if !o.Thorough() && k > 0 && (sweep+k)%2 == 0 {
+					if !o.Thorough() && r.newSeg == 0 && k > 0 && (sweep+k)%2 == 0 {
 						continue // quick tier: every other park point, alternating between sweeps
 					}
 					q := hx.NewPrng(seed)
@@ -1071,7 +1208,7 @@ func driveMW(ctx context.Context, s *hx.Session, p *hx.Prng, o hx.RunOpts) error
 			ks[j] = kinds4[q.Intn(4)]
 		}
 		md := mods[q.Intn(3)]
-		r := relations[q.Intn(len(relations)-1)] // the full-block prefix is dealt out below
+		r := relations[q.Intn(len(relations)-heavyRelations)] // the 66-call prefixes are dealt out below
 		pl, ok := planFor(q, ks, r, md)
 		if !ok {
 			pl, _ = planFor(q, ks, relations[0], md)
@@ -1081,6 +1218,12 @@ func driveMW(ctx context.Context, s *hx.Session, p *hx.Prng, o hx.RunOpts) error
 			if md == 250 {
 				md = 3
 			}
+		}
+		if k%15 == 11 {
+			if md == 250 {
+				md = 3
+			}
+			pl, _ = planFor(q, ks, relations[len(relations)-2], md) // overflow into a missing second segment file
 		}
 		if err := runMW(ctx, s, q, md, pl, randomSched); err != nil {
 			return err
